@@ -5,7 +5,7 @@ import ast
 
 from ..model import AnalysisError, dotted, norm_text, unparse, walk_no_nested
 from ..q import NONEXC, Fn, iter_functions, package_calls
-from .common import AT4_API, AT5_API, HEARTBEAT, SOCKET, SOCK_CLS, fn_of, sock_fn
+from .common import schedule_calls, AT4_API, AT5_API, HEARTBEAT, SOCKET, SOCK_CLS, fn_of, sock_fn
 
 LEVEL = "other"
 EXPLANATION = (
@@ -80,7 +80,7 @@ def r1_r2(ctx):
             # snapshot written as a comprehension; the only permitted filter is `t is not <current task>`
             src = it.generators[0].iter
             for cnd in it.generators[0].ifs:
-                if not (isinstance(cnd, ast.Compare) and len(cnd.ops) == 1 and isinstance(cnd.ops[0], (ast.IsNot, ast.NotEq)) and isinstance(cnd.left, ast.Name) and cnd.left.id == it.elt.id):
+                if not (isinstance(cnd, ast.Compare) and len(cnd.ops) == 1 and isinstance(cnd.ops[0], (ast.IsNot, ast.NotEq)) and any(isinstance(x_, ast.Name) and x_.id == it.elt.id for x_ in (cnd.left, cnd.comparators[0]))):
                     comp_filter_ok = False
                     found = f"only tasks satisfying `{norm_text(cnd)}` are cancelled"
         if dotted(src) != "self._background_tasks" or not isinstance(lp.target, ast.Name) or not comp_filter_ok:
@@ -95,7 +95,7 @@ def r1_r2(ctx):
         filt_ok = True
         for c in conds:
             t = c.test
-            simple = isinstance(t, ast.Compare) and len(t.ops) == 1 and isinstance(t.ops[0], (ast.IsNot, ast.NotEq)) and isinstance(t.left, ast.Name) and t.left.id == lp.target.id
+            simple = isinstance(t, ast.Compare) and len(t.ops) == 1 and isinstance(t.ops[0], (ast.IsNot, ast.NotEq)) and any(isinstance(x_, ast.Name) and x_.id == lp.target.id for x_ in (t.left, t.comparators[0]))
             if not simple:
                 filt_ok = False
                 found = f"tasks are cancelled only under `{norm_text(t)}`"
@@ -128,7 +128,7 @@ def r1_r2(ctx):
             ctx.obligations.append(o)
     # open_socket: schedule connect iff not open, then mark open (no await between)
     op = sock_fn(ctx, "open_socket")
-    sch = [n for n, c in op.calls("self._schedule") if any(isinstance(x, ast.Call) and dotted(x.func) == "self._connect" for x in ast.walk(c))]
+    sch = [n for n, c in schedule_calls(op, "_connect")]
     sets = [n for n, v in op.assigns("self.is_open") if isinstance(v, ast.Constant) and v.value is True]
     tt = op.tests(lambda e: dotted(e) == "self.is_open")
     ok = bool(sch) and bool(sets) and bool(tt) and all(op.cfg.dominates(op.branch(t, "false").id, n.id) for t in tt for n in sch + sets) and not any(op.awaits_between(a, b) for a in sch for b in sets) and not any(op.awaits_between(b, a) for a in sch for b in sets)
